@@ -55,7 +55,7 @@ def generator_rules(ctx, fv, tab):
                           "mask", "shift")
     # T3: the `if` holding the forward update
     fw = [n for n, t in self_field_writes(fv, "fval")]
-    loop = next((n for n in fv.nodes if n.get("k") == "loop"), None)
+    iter_root, loop = iteration_node(fv)
     if not fw or loop is None:
         ctx.fail("C01.T3", "next:guard", "cannot locate the clean-branch update / main loop", fv.fn["sp"])
         return
@@ -110,15 +110,13 @@ def generator_rules(ctx, fv, tab):
             return fv.term(n) == ("index", SF("seq"), SF("pos"))
         return k == "ret"
     try:
-        paths = enum_paths(loop["body"], want)
+        paths = enum_paths(iter_root, want)
     except TooManyPaths:
         ctx.fail("C01.S3", "next:paths", "too many paths to enumerate", line_of(loop))
         return
     emit_guard = mk_bin("==", SF("len"), SF("ksize"))
     def is_exhaust(t):
-        return t[0] == "bin" and t[1] == "==" and (
-            (t[2] == SF("pos") and is_len_of(t[3], SF("seq"))) or
-            (t[3] == SF("pos") and is_len_of(t[2], SF("seq"))))
+        return exhaustion_verdict(t, True) is not None
     n_emit = 0
     bad_pos = bad_first = bad_emit = bad_sat = None
     for ev, ex in paths:
@@ -132,7 +130,7 @@ def generator_rules(ctx, fv, tab):
                       or (e[0] == "ev" and e[1].get("k") == "index")), None)
         if first is not None and first[0] != "cond":
             bad_first = first[1]
-        is_none_exit = ex[0] == "ret" and any(is_exhaust(c) and pol for c, pol in conds)
+        is_none_exit = ex[0] == "ret" and any(exhaustion_verdict(c, pol) is True for c, pol in conds)
         if is_none_exit:
             rt = fv.term(ex[1].get("e"))
             if not is_none(rt):
@@ -188,4 +186,4 @@ def bits_rule(ctx):
                 ctx.check("C01.B", "%s:digitmask@%s" % (fv.path, n_mask), n["r"]["v"] == 3,
                           "digit mask 3", "digit extracted with mask %s; one base is 2 bits (mask 3)" % n["r"]["v"],
                           line_of(n))
-    ctx.floor("C01.B", 13)
+    ctx.floor("C01.B", 8)   # at least the register updates and codec loops; the exact count is not an invariant
